@@ -166,6 +166,13 @@ func (g *Gen) Command(verb, db, coll string) *Node {
 	if g.chance(0.2) {
 		c.Set("maxTimeMS", KeepI(5000))
 	}
+	if g.chance(0.2) {
+		// the comment option takes any BSON value since server 4.4 (a request id, a flag, a document): it is
+		// not one of the query-bearing fields, so it comes out as it went in
+		g.serial++
+		c.Set("comment", keep([]*Node{IntN(4000 + g.serial%5000), BoolN(true), BoolN(false), NullN(), StrN("request " + g.letters(6)), NumN("17.50"),
+			ObjN("requestId", IntN(g.serial), "tags", ArrN(StrN("batch"), NullN())), ArrN(IntN(1), StrN("two"), ObjN("k", BoolN(true)))}[g.serial%8]))
+	}
 	c.Set("$db", StrN(db).With(&Tag{Role: NsDB}))
 	return c
 }
